@@ -65,7 +65,11 @@ class InterruptableThread(threading.Thread):
         # that was itself interrupted leaves a running thread marked as stopped.)
         for thread_id, thread in list(threading._active.items()):
             if thread is self:
-                InterruptableThread._async_raise(thread_id, exception)
+                try:
+                    InterruptableThread._async_raise(thread_id, exception)
+                except ValueError:
+                    # It ended between being looked up and being interrupted
+                    pass
                 return
 
     def terminate(self):
